@@ -8038,3 +8038,102 @@ def gw2(m, run, rule='GW2.weighted-grid-follows-its-grid-and-weights'):
     ci = m.classes[cls]
     run.ob(rule, 'CPGen.GridWeighted :: generate / weight / grid, %d reads' % max(len(steps), 1), why is None, 'every read returns grid point x own weight, weight, in the shape of the current grid' if why is None else why,
            'geomdl/CPGen.py:%d class GridWeighted' % ci.node.lineno)
+
+
+# ====================================================================================== C12 / C15: the aggregate mesh of a container, rebuilt
+def ct2(m, run, rule='CT2.container-mesh-is-numbered-afresh-on-every-rebuild'):
+    """CT2: a real multi.SurfaceContainer (its own constructor, add, tessellate, reset, vertices / faces getters interpreted) holding recorder
+    surfaces that behave like abstract.Surface.tessellate as TV3 decides it (a tessellated surface keeps its mesh unless forced; a
+    forced or first tessellation makes new vertices 0 .. n-1 and faces 0 .. f-1): after the first tessellation, after adding a third
+    surface, after a forced rebuild and after a rebuild that pushes the container's delta, with and without delta=False, the aggregate
+    lists the vertices of every surface once, in surface order, numbered 0, 1, 2 ... without gaps, and the faces likewise"""
+    cls = ('multi', 'SurfaceContainer')
+    fi = m.lookup(cls, 'tessellate', 'methods')
+    if fi is None:
+        raise AnalysisError('multi.SurfaceContainer.tessellate not found')
+    bad = []
+    for delta_kw in (False, True):
+        sk = SK(m, dict(STD_ABSTRACTED))
+        sk.construct = True
+        log = []
+
+        def surface(name, nv, nf):
+            srf = Bag('rec:surface', pdimension=2, dimension=3, delta=[0.1, 0.1], name=name, sample_size=3, sample_size_u=3, sample_size_v=3)
+            srf._a['__isa__'] = (('abstract', 'Surface'), ('BSpline', 'Surface'))
+            state = {'done': False}
+            tsl = Bag('rec:tessellator', vertices=[], faces=[])
+            tsl._a['is_tessellated'] = Py(lambda sk_, node: state['done'], 'is_tessellated')
+            srf._a['tessellator'] = tsl
+
+            def tessellate(sk_, node, *a, **k):
+                log.append((name, 'tessellate', dict(k)))
+                if state['done'] and not k.get('force', False):
+                    return None
+                verts = [Bag('Vertex', id=i, _of=name) for i in range(nv)]
+                faces_ = [Bag('Triangle', id=i, _of=name, vertices=[verts[i % nv], verts[(i + 1) % nv], verts[(i + 2) % nv]]) for i in range(nf)]
+                srf._a['vertices'] = tsl._a['vertices'] = verts
+                srf._a['faces'] = tsl._a['faces'] = faces_
+                state['done'] = True
+                return None
+
+            def evaluate(sk_, node, *a, **k):
+                log.append((name, 'evaluate', dict(k)))
+                return None
+            srf._a['tessellate'] = Py(tessellate, 'tessellate')
+            srf._a['evaluate'] = Py(evaluate, 'evaluate')
+            srf._a['vertices'], srf._a['faces'] = [], []
+            srf._a['__iter__'] = [srf]
+            return srf, (nv, nf)
+        why = None
+        step = 'construction'
+        try:
+            cont = sk.apply(('class', cls), [], {}, None)
+            elems = [surface('s0', 4, 2), surface('s1', 3, 1)]
+            for s_, _ in elems:
+                sk.call(m.lookup(cls, 'add', 'methods'), [cont, s_], {})
+
+            def rebuild(what, **kw):
+                if not delta_kw:
+                    kw = dict(kw, delta=False)
+                sk.call(fi, [cont], dict(kw))
+                v = sk.call(m.lookup(cls, 'vertices', 'getters'), [cont], {})
+                f = sk.call(m.lookup(cls, 'faces', 'getters'), [cont], {})
+                nv, nf = sum(c[0] for _, c in elems), sum(c[1] for _, c in elems)
+                owners_v = [n_ for (s__, c) in elems for n_ in [s__._a['name']] * c[0]]
+                owners_f = [n_ for (s__, c) in elems for n_ in [s__._a['name']] * c[1]]
+                if not isinstance(v, list) or [x._a.get('_of') for x in v] != owners_v:
+                    return '%s: the aggregate does not list the %d vertices of the surfaces once each in surface order' % (what, nv)
+                if [x._a.get('id') for x in v] != list(range(nv)):
+                    return '%s: the vertices of the aggregate are numbered %s, expected 0 .. %d' % (what, [x._a.get('id') for x in v], nv - 1)
+                if not isinstance(f, list) or [x._a.get('_of') for x in f] != owners_f:
+                    return '%s: the aggregate does not list the %d faces of the surfaces once each in surface order' % (what, nf)
+                if [x._a.get('id') for x in f] != list(range(nf)):
+                    return '%s: the faces of the aggregate are numbered %s, expected 0 .. %d' % (what, [x._a.get('id') for x in f], nf - 1)
+                for x in f:
+                    if any(vx not in v for vx in x._a['vertices']):
+                        return '%s: a face refers to a vertex that is not in the aggregate' % what
+                return None
+            step = 'first tessellation'
+            why = rebuild(step)
+            if why is None:
+                step = 'after adding a third surface'
+                elems.append(surface('s2', 5, 3))
+                sk.call(m.lookup(cls, 'add', 'methods'), [cont, elems[-1][0]], {})
+                why = rebuild(step)
+            if why is None:
+                step = 'forced rebuild'
+                why = rebuild(step, force=True)
+            if why is None:
+                step = 'rebuild after reset()'
+                sk.call(m.lookup(cls, 'reset', 'methods'), [cont], {})
+                why = rebuild(step)
+        except Violation as v:
+            why = '%s %s   [%s]' % (v.msg, v.where(), step)
+        except Raised as ex:
+            why = 'raises %s   [%s]' % (ex.kind, step)
+        except Unsupported as ex:
+            raise AnalysisError('%s: interpreter met an unsupported construct: %s' % (fi.key, ex))
+        if why:
+            bad.append(('tessellate(%s)' % ('' if delta_kw else 'delta=False'), why))
+    run.ob(rule, '%s :: 4 rebuilds x (container delta pushed / delta=False)' % fi.key, not bad, 'vertices and faces of every surface once, in order, numbered without gaps after every rebuild' if not bad else
+           '%s: %s   [%d of 2]' % (bad[0][0], bad[0][1], len(bad)), 'geomdl/multi.py:%d in %s' % (fi.node.lineno, fi.key))
